@@ -550,3 +550,37 @@ func ruleFlushAlwaysClears(r *Run, rule, kind string, body *ssa.Function, clear 
 			"the flush body can return without purging although soft-deleted entries are pending (Add relies on it to purge a re-added id)")
 	}
 }
+
+// ruleCtorDistance: the index constructor stores the calculator NewDistance returns for its own distanceKind parameter.
+func ruleCtorDistance(r *Run, rule string, k *vecKind) {
+	w := r.W
+	r.Doc(rule, "the index ranks with another metric's calculator than the kind it reports")
+	ctor := w.Fn("New" + k.IndexName)
+	if ctor == nil {
+		r.Unres(rule, k.Name+":ctor", "constructor New"+k.IndexName+" not found")
+		return
+	}
+	r.Analysed(w.Name(ctor))
+	c := NewCanon(w)
+	ok := false
+	detail := "constructor result is not a literal"
+	for _, ret := range returnsOf(ctor) {
+		if classifyErr(ret) != ErrNil {
+			continue
+		}
+		f, isLit := litFields(resultValue(ret, 0))
+		if !isLit {
+			continue
+		}
+		d, dk := "", ""
+		if f["distance"] != nil {
+			d = c.S(f["distance"])
+		}
+		if f["distanceKind"] != nil {
+			dk = c.S(f["distanceKind"])
+		}
+		detail = "distance=" + d + " distanceKind=" + dk
+		ok = strings.HasPrefix(dk, "P") && d == "NewDistance("+dk+")#0"
+	}
+	r.Check(ok, rule, k.Name+":ctor:distance", w.Pos(ctor.Pos())+" "+w.Name(ctor), "distance = NewDistance(distanceKind) for the constructor's own kind parameter", "constructor stores "+detail)
+}
